@@ -1233,7 +1233,9 @@ class n0dict(n0dict_):
                         return n0dict._find(self, ["[*]"] + xpath_list, parent_node, return_lists, xpath_found_str)
 
                     if not isinstance(parent_node, dict):
-                        raise IndexError(f"If key '{node_index[0]}' is set, then ({type(parent_node)})'{str(parent_node)}' must be n0dict at '{xpath_found_str}'")
+                        # A single value has no keys, so nothing in it satisfies the condition: NOT FOUND (the exception, which
+                        # was raised here, stopped the loop of [*] over the other items too)
+                        return parent_node, None, None, xpath_found_str, xpath_list
                     if node_index[0] not in parent_node:
                         return parent_node, None, None, xpath_found_str, xpath_list
 
